@@ -203,6 +203,8 @@ func runC06(c *Ctx) {
 	transferRelRule(c, "R13")
 	adapterBegunRule(c, "R7")
 	collectorLeavesOnlyWhenNothingIsOwed(c, "R2")
+	concatKeepsEveryTuple(c, "R2")
+	agentReadErrorEndsTheRead(c, "R2")
 	decodedEntriesNilChecked(c, "R9")
 	deliveryInOneCriticalSection(c, "R8")
 	responseMatchedByOid(c, "R8")
